@@ -55,12 +55,16 @@ type H struct{}
 
 func (H) Name() string { return "ipfshttpsim" }
 
-var simpleKinds = []string{"ok", "err_json", "err_plain", "transport", "stall", "garbage"}
+// drop_body / stall_body: the daemon (or a proxy in front of it) answers 200 and
+// then the connection drops, or nothing more arrives, while the body is read.
+// Whether the operation took effect in the daemon is the plan's choice (Progress
+// odd = it did not): either way the transport failed and the call must say so.
+var simpleKinds = []string{"ok", "err_json", "err_plain", "transport", "stall", "garbage", "drop_body", "stall_body"}
 var addEnds = []string{"final", "stall", "drop", "trailer"}
 
 // pin/update has no progress stream and the statement lists no "stalled"
 // behaviour for it: a daemon that never answers pin/update is not generated.
-var updKinds = []string{"ok", "err_json", "err_plain", "transport"}
+var updKinds = []string{"ok", "err_json", "err_plain", "transport", "drop_body"}
 
 // firstCall enumerates the (call kind x prior daemon state x behaviour) product
 // systematically from an index, so that any contiguous seed range as long as the
@@ -128,7 +132,7 @@ func (H) Generate(prop, tier string, seed uint64) *simkit.Plan {
 		if r.Intn(10) < okBias {
 			return &Beh{Kind: "ok"}
 		}
-		return &Beh{Kind: kinds[r.Intn(len(kinds))], DelayMs: r.Pick(3, 1) * r.Range(0, 3000)}
+		return &Beh{Kind: kinds[r.Intn(len(kinds))], DelayMs: r.Pick(3, 1) * r.Range(0, 3000), Progress: r.Intn(2)}
 	}
 	for i := 0; i < n; i++ {
 		s := Step{Cid: r.Intn(3), DelayMs: r.Range(0, 2000)}
@@ -153,7 +157,7 @@ func (H) Generate(prop, tier string, seed uint64) *simkit.Plan {
 			}
 		case 1:
 			s.Op = "unpin"
-			s.Rm = rb(simpleKinds[:5], 6)
+			s.Rm = rb([]string{"ok", "err_json", "err_plain", "transport", "stall", "drop_body", "stall_body"}, 6)
 		case 2:
 			s.Op = "lscid"
 			s.Direct = r.Chance(0.4)
@@ -197,6 +201,29 @@ func jsonResp(req *http.Request, code int, body string, trailer http.Header) *ht
 	return &http.Response{StatusCode: code, Status: fmt.Sprintf("%d", code), Proto: "HTTP/1.1", ProtoMajor: 1, ProtoMinor: 1,
 		Header: http.Header{"Content-Type": []string{"application/json"}}, Body: io.NopCloser(strings.NewReader(body)), Request: req, Trailer: trailer}
 }
+
+// brokenBody hands out the first half of a response body and then fails like a
+// dropped connection, or blocks until the request is cancelled.
+type brokenBody struct {
+	ctx   context.Context
+	data  []byte
+	stall bool
+}
+
+func (b *brokenBody) Read(p []byte) (int, error) {
+	if len(b.data) > 0 {
+		n := copy(p, b.data)
+		b.data = b.data[n:]
+		return n, nil
+	}
+	if b.stall {
+		<-b.ctx.Done()
+		return 0, b.ctx.Err()
+	}
+	return 0, io.ErrUnexpectedEOF
+}
+
+func (b *brokenBody) Close() error { return nil }
 
 func pop(q *[]*Beh) *Beh {
 	if len(*q) == 0 {
@@ -302,6 +329,38 @@ func (d *daemon) RoundTrip(req *http.Request) (*http.Response, error) {
 		return jsonResp(req, 502, "<html>bad gateway</html>", nil), nil
 	case "garbage":
 		return jsonResp(req, 200, "{not json", nil), nil
+	}
+	if b.Kind == "drop_body" || b.Kind == "stall_body" {
+		var resp *http.Response
+		if b.Progress%2 == 1 {
+			// the operation never happened
+			resp = jsonResp(req, 200, `{"Pins":[]}`, nil)
+		} else {
+			ok := *b
+			ok.Kind = "ok"
+			d.mu.Lock()
+			switch path {
+			case "pin/ls":
+				d.ls = append([]*Beh{&ok}, d.ls...)
+			case "pin/update":
+				d.upd = append([]*Beh{&ok}, d.upd...)
+			case "pin/rm":
+				d.rm = append([]*Beh{&ok}, d.rm...)
+			default:
+				d.add = append([]*Beh{&ok}, d.add...)
+			}
+			d.reqs = d.reqs[:len(d.reqs)-1]
+			d.mu.Unlock()
+			r2, err := d.RoundTrip(req)
+			if err != nil {
+				return nil, err
+			}
+			resp = r2
+		}
+		full, _ := io.ReadAll(resp.Body)
+		resp.StatusCode, resp.Status = 200, "200"
+		resp.Body = &brokenBody{ctx: ctx, data: full[:len(full)/2], stall: b.Kind == "stall_body"}
+		return resp, nil
 	}
 	d.mu.Lock()
 	defer d.mu.Unlock()
@@ -597,7 +656,7 @@ func (H) Execute(t *testing.T, plan *simkit.Plan, run *simkit.Run) {
 					run.Violate("C16/daemon_failure_reported_as_success", fmt.Sprintf("%s:%s/%s", r.Path, b.Kind, b.End), "%s failed in the daemon (%+v) but Pin(cid%d) returned nil", r.Path, b, s.Cid%3)
 				}
 			}
-			if s.Ls != nil && (s.Ls.Kind == "transport" || s.Ls.Kind == "stall") && err == nil {
+			if s.Ls != nil && (s.Ls.Kind == "transport" || s.Ls.Kind == "stall" || s.Ls.Kind == "drop_body" || s.Ls.Kind == "stall_body") && err == nil {
 				run.Violate("C16/transport_failure_reported_as_success", "pin/ls", "pin/ls could not reach the daemon (%s) but Pin returned nil", s.Ls.Kind)
 			}
 			// pin/update discipline
@@ -671,7 +730,7 @@ func (H) Execute(t *testing.T, plan *simkit.Plan, run *simkit.Run) {
 				if pinned != (priorMode == want) || err != nil {
 					run.Violate("C16/lscid_wrong", "", "PinLsCid(cid%d, %s): daemon holds %q, connector says %v (err %v)", s.Cid%3, want, priorMode, st, err)
 				}
-			} else if s.Ls != nil && (s.Ls.Kind == "transport" || s.Ls.Kind == "stall" || s.Ls.Kind == "garbage") {
+			} else if s.Ls != nil && (s.Ls.Kind == "transport" || s.Ls.Kind == "stall" || s.Ls.Kind == "garbage" || s.Ls.Kind == "drop_body" || s.Ls.Kind == "stall_body") {
 				if err == nil {
 					run.Violate("C16/transport_failure_reported_as_success", "pin/ls", "pin/ls failed (%s) but PinLsCid returned %v without error", s.Ls.Kind, st)
 				}
